@@ -548,6 +548,18 @@ func Heartbeat() {
 	}
 }
 
+// HeartbeatNow is Heartbeat for callers whose single steps are slow (file system, processes).
+func HeartbeatNow() {
+	beatN++
+	if beatFile == nil {
+		return
+	}
+	if now := time.Now(); now.Sub(beatLast) > 500*time.Millisecond {
+		beatLast = now
+		beatFile.WriteAt([]byte(fmt.Sprintf("%-12d %-12d", beatItem, beatN)), 0) //nolint:errcheck
+	}
+}
+
 // ScratchDir is the check's scratch directory (plain copy of the tree, binaries).
 var ScratchDir string
 
